@@ -30,7 +30,10 @@ PROPS = {
     'C10': dict(facts=[], keys=['C10'], tkeys=['K:ns-certificate', 'T:layers', 'T:phase2-ns', 'T:ns-pivots'], suites=[('c10', 4000, 80000), ('c10-big', 12, 200)], partial=[]),
     'C11': dict(facts=[], keys=['C11'], tkeys=['T:phase2-longestpath', 'T:layers'], suites=[('c11', 2000, 50000), ('c11-deep', 8, 120)], partial=[]),
     'C12': dict(facts=[], keys=['C12'], tkeys=['T:crossings', 'K:ordered', 'T:break', 'T:phase4-sinkcoloring', 'T:phase4-valign', 'T:phase4-packright', 'T:phase5', 'T:output', 'T:phase4-ns'], suites=[('c12', 2000, 50000), ('c12-deep', 6, 60), ('e2e-big', 8, 100)], partial=[]),
-    'C13': dict(facts=[], keys=['C13'], tkeys=['T:crossings', 'K:ordered'], suites=[('c13', 2000, 50000)], partial=[]),
+    'C13': dict(facts=[], keys=['C13'],
+                tkeys=['T:crossings', 'K:ordered', 'T:break', 'T:phase3-wmedian', 'T:wmedian-logged', 'T:phase4-sinkcoloring',
+                       'T:phase4-valign', 'T:phase4-packright', 'T:phase4-ns', 'T:phase5', 'T:output'],
+                suites=[('c13', 2000, 50000), ('c13-big', 12, 200)], partial=[]),
     'C14': dict(facts=[], keys=['C14', 'C14acyclic'], tkeys=['T:phase1'], suites=[('c14', 2500, 60000)], partial=[]),
     'C15': dict(facts=['Shared'], keys=['C15conc'], race_suites=['concurrent'], tkeys=['T:monitor'], suites=[('concurrent', 40, 600), ('monitor', 1000, 20000)], partial=[]),
     'C16': dict(facts=[], keys=['C16'], tkeys=['T:phase4-valign', 'T:phase4-packright', 'T:output', 'K:layersWF'], suites=[('c16', 2500, 60000), ('e2e-big', 8, 100)], partial=[]),
